@@ -34,6 +34,7 @@ ASSUMPTIONS = ["keys of different value kinds are disjoint in generated historie
                "the server goes down / comes back between commands, not between two server calls of one command",
                "SPOP returns the smallest members (the server may return any)", "non-negative counters"]
 EXHAUSTIVE = {"quick": False, "thorough": False}
+ALLOWED_AXIOMS = ["FunctionalExtensionality.functional_extensionality_dep"]   # named in TRUSTED_BASE
 STR_KEYS = ["a", "b", "ab", "n", "m"]
 U = sorted(["a", "b", "ab", "n", "m", "La", "sa", "sb", "za", "ba"])
 VALUES = [1, 5, "x", "hello", b"raw", None, 0, True]
